@@ -128,8 +128,23 @@ Definition run_handler (cfg : config) (seq : nat) (f : frame) (h : hb) (rep : bo
   let s1 := set_handled (handled s ++ [mkHrec seq f k h rep]) s in
   match k with HAck => ack_enqueue (f_id f) s1 | _ => s1 end.
 
+(* c.sentClose (reader.go after ea578f8): stored by the write loop as soon as it has a CloseConnection
+   message in its hand, just before writeHeader — i.e. the write loop holds such a frame, or a header
+   Write of one was attempted (it is in [wire], whole or partial) *)
+Definition is_close_chunk (ch : chunk) : bool :=
+  match ch with
+  | CHdr o | CPay o | CPartial o _ _ => f_typ (o_frame o) =? T_CloseConnection
+  end.
+Definition close_sent (s : state) : bool :=
+  match writer s with
+  | WHolding o => f_typ (o_frame o) =? T_CloseConnection
+  | _ => false
+  end || existsb is_close_chunk (wire s).
+
+(* receivedClosed (736-738): a CloseConnectionResponse counts only after this client has sent
+   CloseConnection (ea578f8; before that fix every CloseConnectionResponse counted) *)
 Definition note_close_resp (f : frame) (s : state) : state :=
-  if f_typ f =? T_CloseConnectionResponse then set_saw_close true s else s.   (* 726-728 *)
+  if (f_typ f =? T_CloseConnectionResponse) && close_sent s then set_saw_close true s else s.
 
 Definition is_conn_success (i : info) : bool :=
   match i with IConn st => st =? 0 | _ => false end.
@@ -289,6 +304,17 @@ Definition step_rframe (cfg : config) (f : frame) (h : hb) (s : state) : state :
 
 Definition reader_dies (s : state) : state := set_reader RDead (set_errs (errs s ++ [ERead]) s).
 
+(* the inbound stream ended inside f's payload and passToHandler went past the reply hand-over:
+   - nobody is interested (no waiter, no handler): CopyN(Discard) fails, the loop ends with that error;
+   - otherwise the handler (if any) saw a short payload, the deferred drain of the LimitReader ends
+     cleanly at EOF, passToHandler returns nil and the NEXT readHeader meets the EOF: tolerated after a
+     CloseConnectionResponse (the loop waits for done, 719-721), an error otherwise *)
+Definition eof_after_dispatch (cfg : config) (f : frame) (rep : bool) (s : state) : state :=
+  match handler_for cfg (f_typ f), rep with
+  | HDiscard, false => reader_dies s
+  | _, _ => if saw_close s then set_reader RWaitDone s else reader_dies s
+  end.
+
 Definition step_peer_eof (cfg : config) (p : eofpos) (s : state) : state :=
   match reader s with
   | RRead =>
@@ -299,10 +325,10 @@ Definition step_peer_eof (cfg : config) (p : eofpos) (s : state) : state :=
           let seq := length (peer_sent s) in
           let s1 := note_close_resp f (set_peer_sent (peer_sent s ++ [f]) s) in
           let '(s2, rep) := take_waiter cfg false seq f s1 in
-          (* a waiter whose reply cannot be read in full: ReadFull fails, 917-919; otherwise the
-             handler (if any) runs on the short payload and the drain fails, 905-910 *)
+          (* a waiter whose reply cannot be read in full: ReadFull fails and that error is kept
+             (reader.go after 85a4e5b): the loop ends. Otherwise see eof_after_dispatch *)
           if rep && (f_len f <=? max_buffered) then reader_dies s2
-          else reader_dies (run_handler cfg seq f HBAll rep s2)
+          else eof_after_dispatch cfg f rep (run_handler cfg seq f HBAll rep s2)
       end
   | _ => s
   end.
